@@ -1,4 +1,5 @@
-import TlsProofs.CbcCheck
+import TlsProofs.CbcGen
+import TlsModel.Gen.CT
 /-
   C12 — the CBC MAC-and-padding check accepts exactly the well-formed records.
 
@@ -6,7 +7,17 @@ import TlsProofs.CbcCheck
   statement; `wellFormed` is the plain specification.  The MAC is an arbitrary function
   `digest` of the accumulated input with a fixed output length (what an incremental
   HMAC object is); nothing else is assumed about it.
+
+  Second half of the file: `Tls.CT.Gen.*` (TlsModel/Gen/CT.lean) is regenerated on every run from
+  the Python AST of the tree under check by translate/gen_ct.py, over the Python-runtime model
+  TlsModel/PyInt.lean.  The theorems `gen_*` prove, for all inputs, that what the source says now
+  computes the hand-written model (`Gen.ct_lt_u32 a b = some (ctLtU32 a b)` …,
+  `Gen.ct_check_cbc_mac_and_pad … = some (cbcCheck …)`), so every theorem about the hand model
+  above is a theorem about the regenerated source text; `gen_cbcCheck_eq_wellFormed` spells the
+  main one out.  An edit of the arithmetic in constanttime.py changes the generated module and
+  breaks the corresponding `gen_*` obligation.
 -/
+set_option linter.unusedSimpArgs false
 namespace Tls.CT
 
 /-- Full characterisation, for every body, MAC, sequence number, content type, version
@@ -289,5 +300,250 @@ theorem cbcCheckOld_accepts_malformed :
 example : cbcCheck ⟨2, 64, fun x => [UInt8.ofNat x.length, 7]⟩
     (macThenPad ⟨2, 64, fun x => [UInt8.ofNat x.length, 7]⟩ [10, 20, 30] [0, 0, 0, 0, 0, 0, 0, 1] 23 3 3 16)
     [0, 0, 0, 0, 0, 0, 0, 1] 23 3 3 16 = true := by decide
+
+
+/-! ## The regenerated source (Tls.CT.Gen) computes the hand-written model -/
+open Tls.Py
+
+/-- `ct_lt_u32` as the source has it now, on every pair of naturals (the function masks its
+    arguments to 32 bits itself, so no range hypothesis is needed) -/
+theorem gen_ct_lt_u32_eq (a b : Nat) : Gen.ct_lt_u32 a b = some (ctLtU32 a b : Int) := by
+  simp only [Gen.ct_lt_u32, bind, pure, band_mask32_nat, band_sub_bv, bxor_bv, bor_bv, shr_bv, ctLtU32]
+
+example : Gen.ct_lt_u32 3 5 = some 1 ∧ Gen.ct_lt_u32 5 3 = some 0 ∧ Gen.ct_lt_u32 4294967296 1 = some 1 := by decide
+
+theorem gen_ct_gt_u32_eq (a b : Nat) : Gen.ct_gt_u32 a b = some (ctGtU32 a b : Int) := by
+  simp only [Gen.ct_gt_u32, gen_ct_lt_u32_eq, bind, pure, bind_some', ctGtU32]
+
+example : Gen.ct_gt_u32 5 3 = some 1 ∧ Gen.ct_gt_u32 3 3 = some 0 := by decide
+
+theorem gen_ct_le_u32_eq (a b : Nat) : Gen.ct_le_u32 a b = some (ctLeU32 a b : Int) := by
+  simp only [Gen.ct_le_u32, gen_ct_gt_u32_eq, bind, pure, bind_some', bxor_one_nat, ctLeU32]
+
+example : Gen.ct_le_u32 5 5 = some 1 ∧ Gen.ct_le_u32 6 5 = some 0 := by decide
+
+theorem gen_ct_lsb_prop_u8_eq (v : Nat) : Gen.ct_lsb_prop_u8 v = some (ctLsbPropU8 v : Int) := by
+  simp only [Gen.ct_lsb_prop_u8, bind, pure, band_nat_one, shl_nat, bor_nat, ctLsbPropU8]
+
+example : Gen.ct_lsb_prop_u8 1 = some 255 ∧ Gen.ct_lsb_prop_u8 2 = some 0 := by decide
+
+theorem gen_ct_lsb_prop_u16_eq (v : Nat) : Gen.ct_lsb_prop_u16 v = some (ctLsbPropU16 v : Int) := by
+  simp only [Gen.ct_lsb_prop_u16, bind, pure, band_nat_one, shl_nat, bor_nat, ctLsbPropU16]
+
+example : Gen.ct_lsb_prop_u16 3 = some 65535 := by decide
+
+theorem gen_ct_isnonzero_u32_eq (v : Nat) : Gen.ct_isnonzero_u32 v = some (ctIsNonZeroU32 v : Int) := by
+  simp only [Gen.ct_isnonzero_u32, bind, pure, band_mask32_nat, band_neg_bv, bor_bv, shr_bv, ctIsNonZeroU32]
+
+example : Gen.ct_isnonzero_u32 0 = some 0 ∧ Gen.ct_isnonzero_u32 4294967296 = some 0 ∧ Gen.ct_isnonzero_u32 9 = some 1 := by decide
+
+theorem gen_ct_neq_u32_eq (a b : Nat) : Gen.ct_neq_u32 a b = some (ctNeqU32 a b : Int) := by
+  simp only [Gen.ct_neq_u32, bind, pure, band_mask32_nat, band_sub_bv, bor_bv, shr_bv, ctNeqU32]
+
+example : Gen.ct_neq_u32 7 8 = some 1 ∧ Gen.ct_neq_u32 7 7 = some 0 := by decide
+
+theorem gen_ct_eq_u32_eq (a b : Nat) : Gen.ct_eq_u32 a b = some (ctEqU32 a b : Int) := by
+  simp only [Gen.ct_eq_u32, gen_ct_neq_u32_eq, bind, pure, bind_some', bxor_one_nat, ctEqU32]
+
+example : Gen.ct_eq_u32 7 7 = some 1 ∧ Gen.ct_eq_u32 7 8 = some 0 := by decide
+
+/-- The same for every Python int, negative ones included: the masking functions see their
+    arguments mod 2^32 (Python's `x & 0xffffffff`). -/
+theorem gen_ct_lt_u32_int (a b : Int) :
+    Gen.ct_lt_u32 a b = some (ctLtU32 (a % 4294967296).toNat (b % 4294967296).toNat : Int) := by
+  simp only [Gen.ct_lt_u32, pure, band_mask32_int a, band_mask32_int b, band_sub_bv, bxor_bv, bor_bv, shr_bv,
+    ctLtU32, ofNat_emod32]
+
+example : Gen.ct_lt_u32 (-1) 5 = some 0 ∧ Gen.ct_lt_u32 5 (-1) = some 1 := by decide
+
+theorem gen_ct_neq_u32_int (a b : Int) :
+    Gen.ct_neq_u32 a b = some (ctNeqU32 (a % 4294967296).toNat (b % 4294967296).toNat : Int) := by
+  simp only [Gen.ct_neq_u32, pure, band_mask32_int a, band_mask32_int b, band_sub_bv, bor_bv, shr_bv,
+    ctNeqU32, ofNat_emod32]
+
+example : Gen.ct_neq_u32 (-1) 4294967295 = some 0 ∧ Gen.ct_neq_u32 (-1) 0 = some 1 := by decide
+
+theorem gen_ct_isnonzero_u32_int (a : Int) :
+    Gen.ct_isnonzero_u32 a = some (ctIsNonZeroU32 (a % 4294967296).toNat : Int) := by
+  simp only [Gen.ct_isnonzero_u32, pure, band_mask32_int a, band_neg_bv, bor_bv, shr_bv, ctIsNonZeroU32,
+    ofNat_emod32]
+
+example : Gen.ct_isnonzero_u32 (-4294967296) = some 0 ∧ Gen.ct_isnonzero_u32 (-1) = some 1 := by decide
+
+/-- What the docstrings promise, read off the source as it is now: the comparison of the arguments
+    (mod 2^32) as 0/1, the propagated low bit.  (Model-level counterparts: `ctLtU32_spec` … in
+    TlsProofs/CT.lean.) -/
+theorem gen_ct_lt_u32_spec (a b : Nat) :
+    Gen.ct_lt_u32 a b = some (if a % 2^32 < b % 2^32 then 1 else 0) := by
+  rw [gen_ct_lt_u32_eq, ctLtU32_spec]; split <;> rfl
+
+theorem gen_ct_gt_u32_spec (a b : Nat) :
+    Gen.ct_gt_u32 a b = some (if a % 2^32 > b % 2^32 then 1 else 0) := by
+  rw [gen_ct_gt_u32_eq, ctGtU32_spec]; split <;> rfl
+
+theorem gen_ct_le_u32_spec (a b : Nat) :
+    Gen.ct_le_u32 a b = some (if a % 2^32 ≤ b % 2^32 then 1 else 0) := by
+  rw [gen_ct_le_u32_eq, ctLeU32_spec]; split <;> rfl
+
+theorem gen_ct_eq_u32_spec (a b : Nat) :
+    Gen.ct_eq_u32 a b = some (if a % 2^32 = b % 2^32 then 1 else 0) := by
+  rw [gen_ct_eq_u32_eq, ctEqU32_spec]; split <;> rfl
+
+theorem gen_ct_neq_u32_spec (a b : Nat) :
+    Gen.ct_neq_u32 a b = some (if a % 2^32 = b % 2^32 then 0 else 1) := by
+  rw [gen_ct_neq_u32_eq, ctNeqU32_spec]; split <;> rfl
+
+theorem gen_ct_isnonzero_u32_spec (v : Nat) :
+    Gen.ct_isnonzero_u32 v = some (if v % 2^32 = 0 then 0 else 1) := by
+  rw [gen_ct_isnonzero_u32_eq, ctIsNonZeroU32_spec]; split <;> rfl
+
+theorem gen_ct_lsb_prop_u8_spec (v : Nat) :
+    Gen.ct_lsb_prop_u8 v = some (if v % 2 = 1 then 255 else 0) := by
+  rw [gen_ct_lsb_prop_u8_eq, ctLsbPropU8_spec]; split <;> rfl
+
+theorem gen_ct_lsb_prop_u16_spec (v : Nat) :
+    Gen.ct_lsb_prop_u16 v = some (if v % 2 = 1 then 65535 else 0) := by
+  rw [gen_ct_lsb_prop_u16_eq, ctLsbPropU16_spec]; split <;> rfl
+
+/-- `ct_check_cbc_mac_and_pad` as the source has it now (both loops, the hmac copy/update/digest
+    calls, `max(0, …)`, `//`, the slices, `bytearray([…])`) returns exactly what the hand-written
+    `cbcCheck` returns, for every body, MAC algorithm, sequence number, content type, block size
+    and each of the four versions the function's `assert` admits.  `mac` is an hmac object that
+    has absorbed nothing yet (what the record layer passes).
+    Hypotheses: `hv` is the function's own `assert`; `hd` (digest() returns digest_size bytes)
+    keeps `mac_compare[j]` in range, `hb` excludes ZeroDivisionError in `// mac.block_size`;
+    `hL`: for `mac_start ≥ 65536` the source raises ValueError in `bytearray([mac_start >> 8])`
+    (the hand model truncates instead) — TLS record bodies are below 2^14 + 2048 bytes. -/
+theorem gen_ct_check_cbc_mac_and_pad_eq (m : MacAlg) (data seq : Bytes) (ct : UInt8) (vmaj vmin bs : Nat)
+    (hd : ∀ x, (m.digest x).length = m.dlen) (hb : 0 < m.blockSize)
+    (hv : (vmaj, vmin) ∈ [(3, 0), (3, 1), (3, 2), (3, 3)])
+    (hL : data.length < 2^16) :
+    Gen.ct_check_cbc_mac_and_pad data ⟨m, []⟩ seq (ct.toNat : Int) ((vmaj : Int), (vmin : Int)) (bs : Int)
+      = some (cbcCheck m data seq ct vmaj vmin bs) := by
+  obtain ⟨hguard, hs1, hs2, hvmaj, hvmin⟩ := ver_facts vmaj vmin hv
+  unfold Gen.ct_check_cbc_mac_and_pad cbcCheck
+  simp only [bind, pure]
+  simp only [macDigestSize_mk, macBlockSize_mk, len_eq, hguard, bind_some', hs1, hs2]
+  by_cases h0 : m.dlen + 1 > data.length
+  · -- publicly too short
+    have : ((m.dlen : Int) + 1 > (data.length : Int)) := by omega
+    simp only [h0, this, decide_true, if_true]
+  · have h0' : ¬ ((m.dlen : Int) + 1 > (data.length : Int)) := by omega
+    simp only [h0, h0', decide_false, if_false, Bool.false_eq_true]
+    generalize hp : byteAt data (data.length - 1) = p
+    have hp256 : p < 256 := by rw [← hp]; exact byteAt_lt _ _
+    have hgi : getItem data ((data.length : Int) - 1) = some (p : Int) := by
+      have e : ((data.length : Int) - 1) = ((data.length - 1 : Nat) : Int) := by omega
+      rw [e, getItem_nat data _ (by omega), hp]
+    -- `max(0, a - b)` on Python ints is truncated subtraction; the positions are naturals
+    have e1 : ((p : Int) + 1 + (m.dlen : Int)) = ((p + 1 + m.dlen : Nat) : Int) := by omega
+    have e2 : (((data.length : Int) - (p : Int) - 1)).toNat = data.length - p - 1 := by omega
+    have e3 : (((data.length - p - 1 : Nat) : Int) - (m.dlen : Int)).toNat = data.length - p - 1 - m.dlen := by omega
+    have e4 : ((data.length : Int) - (256 + (m.dlen : Int))).toNat = data.length - (256 + m.dlen) := by omega
+    have e5 : ((data.length : Int) - 256).toNat = data.length - 256 := by omega
+    have e6 : ((data.length : Int) - (m.dlen : Int)) = ((data.length - m.dlen : Nat) : Int) := by omega
+    have b1 : bytearrayOfInts [(ct.toNat : Int)] = some [ct] := by
+      rw [bytearrayOfInts_one _ ct.toNat_lt]; simp
+    simp only [hgi, bind_some', e1, gen_ct_lt_u32_eq, gen_ct_lsb_prop_u8_eq, max2_zero, e2, e3, e4, e5, e6,
+      floordiv_nat _ _ hb, ← Int.natCast_mul, bor_zero_nat, bor_nat, b1, bytearrayOfInts_one _ hvmaj,
+      bytearrayOfInts_one _ hvmin, bytearrayOfInts_shr8 _ (show data.length - p - 1 - m.dlen < 65536 by omega),
+      bytearrayOfInts_and255, macCopy_eq, macUpdate_mk, slice_to]
+    generalize hr0 : ctLsbPropU8 (ctLtU32 data.length (p + 1 + m.dlen)) = r0
+    generalize hms : data.length - p - 1 - m.dlen = ms
+    generalize hsp : (data.length - (256 + m.dlen)) / m.blockSize * m.blockSize = sp
+    have hspL : sp ≤ data.length := by
+      have := Nat.div_mul_le_self (data.length - (256 + m.dlen)) m.blockSize
+      omega
+    -- padding part: SSLv3 length test, or the loop over the last ≤ 256 bytes
+    refine bind_eq_of
+      (if isSsl3 vmaj vmin = true then
+        ((ctLsbPropU8 (ctLtU32 bs p) : Int), ((r0 ||| ctLsbPropU8 (ctLtU32 bs p) : Nat) : Int))
+       else List.foldl (fun st k => padStep data p (data.length - p - 1) k st) ((r0 : Int), (r0 : Int))
+          (List.range' (data.length - 256) (data.length - (data.length - 256)))) ?_ ?_
+    · cases hs : isSsl3 vmaj vmin
+      · simp only [Bool.false_eq_true, if_false]
+        rw [forIn_range (data.length - 256) data.length _ _ (padStep data p (data.length - p - 1)), bind_some']
+        intro k st _ hk2
+        simp only [gen_ct_le_u32_eq, gen_ct_lsb_prop_u8_eq, bind_some', getItem_nat data k hk2, bxor_nat, band_nat]
+        rfl
+      · simp only [if_true]
+    -- only the result component of the padding state is used below
+    generalize hS0 : (if isSsl3 vmaj vmin = true then
+        ((ctLsbPropU8 (ctLtU32 bs p) : Int), ((r0 ||| ctLsbPropU8 (ctLtU32 bs p) : Nat) : Int))
+       else List.foldl (fun st k => padStep data p (data.length - p - 1) k st) ((r0 : Int), (r0 : Int))
+          (List.range' (data.length - 256) (data.length - (data.length - 256)))) = S0
+    have hS2 : S0.2 = ((r0 ||| (if isSsl3 vmaj vmin = true then ctLsbPropU8 (ctLtU32 bs p)
+            else orFold (List.range' (data.length - 256) (data.length - (data.length - 256))) fun i =>
+                (byteAt data i ^^^ p) &&& ctLsbPropU8 (ctLeU32 (data.length - p - 1) i)) : Nat) : Int) := by
+      rw [← hS0]
+      cases isSsl3 vmaj vmin
+      · simp only [Bool.false_eq_true, if_false]
+        have := foldl_padStep data p (data.length - p - 1)
+          (List.range' (data.length - 256) (data.length - (data.length - 256))) (r0 : Int) r0
+        rw [this]
+      · simp only [if_true]
+    generalize (if isSsl3 vmaj vmin = true then ctLsbPropU8 (ctLtU32 bs p)
+            else orFold (List.range' (data.length - 256) (data.length - (data.length - 256))) fun i =>
+                (byteAt data i ^^^ p) &&& ctLsbPropU8 (ctLeU32 (data.length - p - 1) i)) = r1 at hS2 ⊢
+    -- MAC part: what data_mac has absorbed is the model's header
+    refine bind_eq_of (⟨m, seq ++ [ct] ++ (if isSsl3 vmaj vmin = true then []
+        else [UInt8.ofNat vmaj] ++ [UInt8.ofNat vmin])⟩ : MacObj) ?_ ?_
+    · cases isSsl3 vmaj vmin <;> simp
+    simp only [macUpdate_mk, macDigest_mk, header_eq]
+    -- the loop over the candidate MAC positions and its inner comparison loop
+    rw [hS2]
+    rw [forIn_range sp (data.length - m.dlen) _ _
+      (macStep m data (macHeader seq ct vmaj vmin ms ++ List.take sp data) ms sp)]
+    rw [bind_some']
+    rw [foldl_macStep]
+    · refine congrArg some ?_
+      rw [Bool.eq_iff_iff]
+      simp only [decide_eq_true_eq, beq_iff_eq, Int.natCast_eq_zero]
+    · intro k st hk1 hk2
+      simp only [gen_ct_eq_u32_eq, gen_ct_lsb_prop_u8_eq, bind_some']
+      rw [slice_from_to data sp k hspL (by omega),
+        forIn_range0 m.dlen _ _ (fun j (r : Int) => Py.bor r
+          (((byteAt data (k + j) ^^^ byteAt (m.digest (macHeader seq ct vmaj vmin ms ++ List.take sp data
+              ++ (data.drop sp).take (k - sp))) j) &&& ctLsbPropU8 (ctEqU32 k ms) : Nat) : Int)), bind_some']
+      · rfl
+      · intro j r hj
+        rw [← Int.natCast_add, getItem_nat data (k + j) (by omega), bind_some',
+          getItem_nat _ j (by rw [hd]; exact hj), bind_some', bxor_nat, band_nat]
+
+/-- non-vacuity: the regenerated function evaluated on a concrete record (accept) and on the same
+    record under SSLv3 framing (reject) -/
+example : Gen.ct_check_cbc_mac_and_pad
+    (macThenPad ⟨2, 64, fun x => [UInt8.ofNat x.length, 7]⟩ [10, 20, 30] [0, 0, 0, 0, 0, 0, 0, 1] 23 3 3 16)
+    ⟨⟨2, 64, fun x => [UInt8.ofNat x.length, 7]⟩, []⟩ [0, 0, 0, 0, 0, 0, 0, 1] 23 (3, 3) 16 = some true := by decide
+
+/-- The characterisation, stated about the regenerated source text: for every record body below
+    2^16 bytes, `ct_check_cbc_mac_and_pad` as it stands in the tree under check returns (no
+    exception) exactly the plain specification. -/
+theorem gen_cbcCheck_eq_wellFormed (m : MacAlg) (data seq : Bytes) (ct : UInt8) (vmaj vmin bs : Nat)
+    (hd : ∀ x, (m.digest x).length = m.dlen) (hb : 0 < m.blockSize)
+    (hv : (vmaj, vmin) ∈ [(3, 0), (3, 1), (3, 2), (3, 3)])
+    (hL : data.length < 2^16) (hdl : m.dlen < 2^31) (hbs : bs < 2^32) :
+    Gen.ct_check_cbc_mac_and_pad data ⟨m, []⟩ seq (ct.toNat : Int) ((vmaj : Int), (vmin : Int)) (bs : Int)
+      = some (wellFormed m data seq ct vmaj vmin bs) := by
+  rw [gen_ct_check_cbc_mac_and_pad_eq m data seq ct vmaj vmin bs hd hb hv hL,
+    cbcCheck_eq_wellFormed m data seq ct vmaj vmin bs hd hb (by omega) hdl hbs]
+
+/-- … and so the regenerated source accepts everything a conforming sender produces. -/
+theorem gen_accepts_macThenPad (m : MacAlg) (frag seq : Bytes) (ct : UInt8) (vmaj vmin bs : Nat)
+    (hd : ∀ x, (m.digest x).length = m.dlen) (hb : 0 < m.blockSize)
+    (hv : (vmaj, vmin) ∈ [(3, 0), (3, 1), (3, 2), (3, 3)])
+    (hbs : 0 < bs) (hbs2 : bs ≤ 256) (hdl : m.dlen < 2^14) (hfl : frag.length < 2^15) :
+    Gen.ct_check_cbc_mac_and_pad (macThenPad m frag seq ct vmaj vmin bs) ⟨m, []⟩ seq (ct.toNat : Int)
+      ((vmaj : Int), (vmin : Int)) (bs : Int) = some true := by
+  rw [gen_ct_check_cbc_mac_and_pad_eq m _ seq ct vmaj vmin bs hd hb hv ?_,
+    cbcCheck_macThenPad m frag seq ct vmaj vmin bs hd hb hbs hbs2 (by omega) (by omega)]
+  rw [macThenPad_eq]
+  simp [hd]
+  omega
+
+/-- the translator understood every statement of the nine functions (no poison was emitted) -/
+theorem gen_translation_complete :
+    Gen.translatorProblems = [] ∧ Gen.translated.all (fun x => x.2) = true ∧ Gen.translated.length = 9 := by
+  decide
 
 end Tls.CT
